@@ -681,10 +681,14 @@ func (c *Context) Children() vivid.ActorRefs {
 }
 
 // removeChild 移除子 Actor 引用并返回剩余数量。
-func (c *Context) removeChild(path vivid.ActorPath) int {
+// 仅当登记的引用就是已终止的那个 Actor 时才移除：子 Actor 先释放路径、后通知父 Actor，
+// 在此窗口内父 Actor 可能已用同名创建了新的子 Actor，迟到的 OnKilled 不能把新的子 Actor 从表中删掉
+func (c *Context) removeChild(ref vivid.ActorRef) int {
 	c.childrenLock.Lock()
 	defer c.childrenLock.Unlock()
-	delete(c.children, path)
+	if current, ok := c.children[ref.GetPath()]; ok && current == ref {
+		delete(c.children, ref.GetPath())
+	}
 	return len(c.children)
 }
 
